@@ -148,6 +148,8 @@ def gen_case(ck: Check, cap: int):
         sizes = [len(l) for l in layers]
         ecc = len(layers) - 1
         cfg = graphs.gen_cfg(rng, gd)
+        if max(sizes) > 400 and cfg["batch_size"] < max(sizes) // 40:
+            cfg["batch_size"] = rng.choice([max(sizes) // 40 + 1, max(sizes) // 7 + 1, max(sizes) + 1])
         opts = {
             "max_layer_size_to_store": rng.choice([None, 1, 2, 3, 1000, max(sizes), max(sizes) - 1]) or None,
             "return_all_hashes": rng.random() < 0.6,
